@@ -4,7 +4,7 @@
    configuration c and driven by the ARBITRARY event list evs (reachable states = states of runs). *)
 From Coq Require Import NArith List Bool.
 From AV Require Import Gen.WsConnConsts Model.WsConn Proofs.WsConnProofs Proofs.WsConnProofs2 Proofs.WsConnProofs3
-  Proofs.WsConnTimers Proofs.WsConnLive.
+  Proofs.WsConnTimers Proofs.WsConnLive Proofs.WsConnResp.
 Import ListNotations.
 Open Scope N_scope.
 
@@ -37,7 +37,10 @@ Theorem C05_gone_events : forall c s,
 Proof. intros. split; [intro; apply peer_drop_gone | apply own_drop_gone]. Qed.
 Print Assumptions C05_gone_events.
 
-(* at most one close frame is ever written and no frame of any kind (data, ping, pong, close) follows it.
+(* at most one close frame is ever written and no frame of any kind follows it: no data frame (sendMessage), no octet of
+   a streaming frame (beginMessage / sendMessageFrame / endMessage: WHdr, WPayload and the final continuation frame count
+   as frames), no ping, pong or second close -- whatever send API is called in whatever state, in particular when the
+   close begins in the middle of a streaming message.
    Scope: writes that go straight to the transport.  The trickle queue of sync / chopped writes (send_queue, _trigger,
    _send, _QUEUED_WRITE_DELAY) is NOT part of the model; for queued writes the same two statements are checked on the
    real code only, by the property oracle over the send-queue family of harness/props/c05.py (all short sequences with
@@ -207,6 +210,11 @@ Theorem C05_send_after_close : forall c s, st s = CLOSED ->
 Proof. exact send_after_close. Qed.
 Print Assumptions C05_send_after_close.
 
+Theorem C05_streaming_api_not_open : forall c s, st s <> OPEN ->
+  step c s EBeginMessage = (s, []) /\ step c s ESendFrame = (s, []) /\ step c s EEndMessage = (s, []).
+Proof. exact streaming_not_open. Qed.
+Print Assumptions C05_streaming_api_not_open.
+
 Theorem C05_send_message_not_open : forall c s, st s <> OPEN ->
   step c s ESendMessage = (s, [(now s, Raised ExDisconnected)]).
 Proof. exact send_message_not_open. Qed.
@@ -243,3 +251,12 @@ Example C05_witness_echo_boundary :
   snd (run c [EHandshake; EPeerClose (Some (5000, None)) []]) =
     [(0, WHttp); (0, CbOpen); (0, IsOpen); (0, WClose OFail (Some 1002) (Some []))].
 Proof. vm_compute. auto. Qed.
+
+(* the close begins between beginMessage() and endMessage(): the message is never terminated on the wire, nothing
+   follows the close frame *)
+Example C05_witness_close_mid_streaming_message :
+  let c := mkCfg Client false false 2000 1000 1000 0 0 12 true 0 false in
+  snd (run c [EHandshake; EBeginMessage; ESendFrame; ESendClose (Some 1000) None; ESendFrame; EEndMessage; ESendMessage]) =
+  [(0, WHttp); (0, CbOpen); (0, IsOpen); (0, WHdr); (0, WPayload 2); (0, WClose OApi (Some 1000) None);
+   (0, Raised ExDisconnected)].
+Proof. vm_compute. reflexivity. Qed.
